@@ -152,29 +152,45 @@ fn walk_attribute(name: &str, b: &mut L, pool: &[Option<Vec<u8>>], seen: &mut Ve
 			walk_attributes(b, pool, "Code", seen)
 		}
 		"StackMapTable" => {
+			// the meaning of each frame per JVMS 4.7.4 is recorded (prefixed FRAME) for the comparison with the raw value
 			for _ in 0..b.u16()? {
 				match b.u8()? {
-					0..=63 => {}
-					64..=127 => walk_vti(b)?,
-					247 => {
-						b.skip(2)?;
-						walk_vti(b)?
+					t @ 0..=63 => seen.push(format!("{FRAME}same delta={t}")),
+					t @ 64..=127 => {
+						walk_vti(b)?;
+						seen.push(format!("{FRAME}same_locals_1_stack_item delta={}", t - 64));
 					}
-					248..=251 => b.skip(2)?,
+					247 => {
+						let d = b.u16()?;
+						walk_vti(b)?;
+						seen.push(format!("{FRAME}same_locals_1_stack_item_extended delta={d}"));
+					}
+					t @ 248..=250 => {
+						let d = b.u16()?;
+						seen.push(format!("{FRAME}chop k={} delta={d}", 251 - t));
+					}
+					251 => {
+						let d = b.u16()?;
+						seen.push(format!("{FRAME}same_extended delta={d}"));
+					}
 					t @ 252..=254 => {
-						b.skip(2)?;
+						let d = b.u16()?;
 						for _ in 0..(t - 251) {
 							walk_vti(b)?;
 						}
+						seen.push(format!("{FRAME}append locals={} delta={d}", t - 251));
 					}
 					255 => {
-						b.skip(2)?;
-						for _ in 0..b.u16()? {
+						let d = b.u16()?;
+						let nl = b.u16()?;
+						for _ in 0..nl {
 							walk_vti(b)?;
 						}
-						for _ in 0..b.u16()? {
+						let ns = b.u16()?;
+						for _ in 0..ns {
 							walk_vti(b)?;
 						}
+						seen.push(format!("{FRAME}full locals={nl} stack={ns} delta={d}"));
 					}
 					t => return Err(format!("reserved frame_type {t}")),
 				}
@@ -260,8 +276,66 @@ fn walk_attribute(name: &str, b: &mut L, pool: &[Option<Vec<u8>>], seen: &mut Ve
 	}
 }
 
+const FRAME: &str = "\u{1}frame ";
+
 /// walks a whole class file; returns the attribute names met
 pub fn walk_layout(bytes: &[u8]) -> LR<Vec<String>> {
+	Ok(walk_layout_frames(bytes)?.0)
+}
+
+/// the meaning of every stack map frame of a raw value, in file order (fields, methods, class; nested attributes in place)
+pub fn raw_frames(v: &raw::ClassFile) -> Vec<String> {
+	use raw::StackMapFrame as F;
+	fn walk(list: &[raw::AttributeInfo], out: &mut Vec<String>) {
+		for a in list {
+			match a {
+				raw::AttributeInfo::Code { attributes, .. } => walk(attributes, out),
+				raw::AttributeInfo::Record { components, .. } => components.iter().for_each(|c| walk(&c.attributes, out)),
+				raw::AttributeInfo::StackMapTable { entries, .. } => {
+					for f in entries {
+						out.push(match f {
+							F::SameFrame { offset_delta } => format!("same delta={offset_delta}"),
+							F::SameLocals1StackItemFrame { offset_delta, .. } => format!("same_locals_1_stack_item delta={offset_delta}"),
+							F::SameLocals1StackItemFrameExtended { offset_delta, .. } => format!("same_locals_1_stack_item_extended delta={offset_delta}"),
+							F::ChopFrame { k, offset_delta } => format!("chop k={k} delta={offset_delta}"),
+							F::SameFrameExtended { offset_delta } => format!("same_extended delta={offset_delta}"),
+							F::AppendFrame { offset_delta, locals } => format!("append locals={} delta={offset_delta}", locals.len()),
+							F::FullFrame { offset_delta, locals, stack } => format!("full locals={} stack={} delta={offset_delta}", locals.len(), stack.len()),
+						});
+					}
+				}
+				_ => {}
+			}
+		}
+	}
+	let mut out = Vec::new();
+	v.fields.iter().for_each(|f| walk(&f.attributes, &mut out));
+	v.methods.iter().for_each(|f| walk(&f.attributes, &mut out));
+	walk(&v.attributes, &mut out);
+	out
+}
+
+/// the frames of the file must mean (JVMS 4.7.4: kind, offset_delta, number of chopped / appended locals) what the raw value says
+fn frames_agree(v: &raw::ClassFile, file_frames: &[String], obs: &mut Obs) -> PropResult {
+	let value_frames = raw_frames(v);
+	if value_frames != file_frames {
+		let k = value_frames.iter().zip(file_frames.iter()).position(|(a, b)| a != b).unwrap_or(value_frames.len().min(file_frames.len()));
+		return Err(format!(
+			"stack map frame #{k}: the raw value says {:?}, the bytes say {:?} to a JVMS reader ({} frames in the value, {} in the file)",
+			value_frames.get(k),
+			file_frames.get(k),
+			value_frames.len(),
+			file_frames.len()
+		));
+	}
+	for f in &value_frames {
+		obs.label(format!("frame_meaning_checked:{}", f.split(' ').next().unwrap_or("")));
+	}
+	Ok(())
+}
+
+/// as walk_layout; also returns the meaning of every stack map frame in file order
+pub fn walk_layout_frames(bytes: &[u8]) -> LR<(Vec<String>, Vec<String>)> {
 	let mut l = L { b: bytes, p: 0 };
 	if l.u32()? != 0xCAFEBABE {
 		return Err("magic".into());
@@ -282,7 +356,8 @@ pub fn walk_layout(bytes: &[u8]) -> LR<Vec<String>> {
 	if l.p != bytes.len() {
 		return Err(format!("{} bytes after the class file", bytes.len() - l.p));
 	}
-	Ok(seen)
+	let (frames, names): (Vec<String>, Vec<String>) = seen.into_iter().partition(|x| x.starts_with(FRAME));
+	Ok((names, frames.into_iter().map(|f| f[FRAME.len()..].to_string()).collect()))
 }
 
 fn pool_has_wide(bytes: &[u8]) -> bool {
@@ -398,6 +473,9 @@ pub fn bytes_roundtrip(bytes: &[u8], obs: &mut Obs) -> PropResult {
 	let tb = v.to_bytes();
 	if tb != out {
 		return Err("to_bytes() and write() disagree".into());
+	}
+	if let Ok((_, file_frames)) = walk_layout_frames(bytes) {
+		frames_agree(&v, &file_frames, obs)?;
 	}
 	Ok(())
 }
@@ -703,8 +781,9 @@ fn raw_value(case: &RawCase, obs: &mut Obs) -> PropResult {
 		return Err("write() and to_bytes() disagree".into());
 	}
 	// every count and attribute_length as the JVMS lays them out
-	match walk_layout(&bytes) {
-		Ok(names) => {
+	match walk_layout_frames(&bytes) {
+		Ok((names, file_frames)) => {
+			frames_agree(&v, &file_frames, obs)?;
 			let mut names = names;
 			names.sort();
 			names.dedup();
